@@ -249,6 +249,8 @@ func (d *Driver) GenVC(key string, safety bool, lockCheck bool) (fvc *FuncVC) {
 		}
 		if s.K == KAny {
 			vc.assume("(anyWF " + v.T + ")")
+			// heap closure for interface parameters: the boxed reference is an allocated object (or none)
+			vc.assume("(and (>= (refOf " + v.T + ") 0) (<= (refOf " + v.T + ") " + ex.get(st, "alloc") + "))")
 			// safety mode: interface parameters (other than error / empty interface) are non-nil at entry
 			if safety && deref {
 				vc.assume(ex.nnAny(v.T, t))
